@@ -36,6 +36,8 @@ class BasinWorld(World):
         args = call.get("a", [])
         if name == "nodes_indices_bottomup":
             return PyVec(list(self.order))
+        if name == "size":
+            return len(self.order)
         if name == "is_masked":
             return self.masked[it.rv(it.eval(args[0], frame))]
         if name == "is_base_level":
@@ -86,7 +88,7 @@ def run(db, chk):
                 if unm and not unm[0][1]:
                     continue     # not a bottom-up order: the first unmasked node must be a root
                 n_sc += 1
-                order = list(range(10, 10 + n))
+                order = list(range(n - 1, -1, -1))   # storage ids 0..n-1, bottom-up order reversed
                 masked = {order[i]: combo[i][0] for i in range(n)}
                 base = {order[i] for i in range(n) if combo[i][2]}
                 rec = Table("m_receivers")
